@@ -118,6 +118,10 @@ Definition known_class (c : case) : bool :=
   && forallb (kept_ok t) (c_keep c)
   && negb (forallb (kept_ok t) (c_keep_side c)).
 
+(** The whole commit table (originals and new commits) has parents at smaller positions. *)
+Definition in_domain (c : case) : bool :=
+  wf_parentsb (map fst (ext_table c (length (c_rows c)))).
+
 Fixpoint first_bad_row (c : case) (k : nat) (rows : list row) : N :=
   match rows with
   | [] => 0
@@ -125,7 +129,9 @@ Fixpoint first_bad_row (c : case) (k : nat) (rows : list row) : N :=
   end.
 
 (** detail: 1 + the index of the first row whose tree the model computes differently;
+    99 when the commit table is not in the theorems' domain (a parent at a larger position);
     100 when only the property checker objects. *)
 Definition check_case (c : case) : N :=
   let bad := first_bad_row c 0 (c_rows c) in
-  verdict (N.eqb bad 0) (okb c) (known_class c) (if N.eqb bad 0 then 100 else bad).
+  verdict (N.eqb bad 0 && in_domain c) (okb c) (known_class c)
+          (if negb (in_domain c) then 99 else if N.eqb bad 0 then 100 else bad).
